@@ -57,6 +57,17 @@ def cases(rng, tier):
     # long sequences with > 127 / > 255 charged or neutral residues, net charge beyond +-127, length > 256
     for s in gen.large_regime():
         yield Case(["q region " + s, "q specregion " + s], {"kind": "large-regime"})
+    # medium lengths where 7N/20 and N/4 are integers: EVERY split on the FCR boundaries and on the |NCPR| = 7/20 boundary
+    for N3 in ((120, 140, 180) if tier == "quick" else (100, 120, 140, 160, 180, 240, 280, 340, 360)):
+        for c in (N3 // 4, 7 * N3 // 20):
+            for a in range(0, c + 1, 1 if tier != "quick" else 3):
+                sq = gen.spell(gen.arrange((a, c - a, N3 - c), rng), rng)
+                yield Case(["q region " + sq, "q specregion " + sq], {"kind": "boundary-every-split"})
+        d = 7 * N3 // 20
+        for b in range(0, (N3 - d) // 2 + 1, 1 if tier != "quick" else 2):
+            for comp in ((b + d, b, N3 - d - 2 * b), (b, b + d, N3 - d - 2 * b)):
+                sq = gen.spell(gen.arrange(comp, rng), rng)
+                yield Case(["q region " + sq, "q specregion " + sq], {"kind": "boundary-every-split"})
     # boundary-targeted: FCR / NCPR exactly on 1/4, 7/20 for larger N
     for N2 in (60, 100, 200, 400, 1000):
         for k in (N2 // 4, N2 * 7 // 20):
